@@ -667,7 +667,9 @@ class SymInt:
         return True if r is NotImplemented else r
 
     def __hash__(self):
-        return hash(self.t)
+        # constant: symbolic integers that are equal under the path condition must collide in sets / dicts so
+        # that membership tests reach __eq__ (which forks on the solver) instead of silently missing
+        return 0x5EED
 
     def __bool__(self):
         return bool(lift(self.t != 0))
